@@ -450,7 +450,13 @@ func autoBase(text string) (string, int, bool) {
 	if len(rest) > 0 && (rest[0] == '+' || rest[0] == '-') {
 		sign, rest = rest[:1], rest[1:]
 	}
+	// a sign is only legal in front of the prefix: what follows a prefix must be digits
+	digits := func(s string) bool { return len(s) > 0 && s[0] != '+' && s[0] != '-' }
 	switch {
+	case len(rest) > 2 && (rest[:2] == "0x" || rest[:2] == "0X" || rest[:2] == "0b" || rest[:2] == "0B" || rest[:2] == "0o" || rest[:2] == "0O") && !digits(rest[2:]):
+		return text, 10, false // (not a numeral in any base; base 10 refuses it)
+	case len(rest) > 1 && rest[0] == '0' && !digits(rest[1:]):
+		return text, 10, false
 	case len(rest) > 2 && (rest[:2] == "0x" || rest[:2] == "0X"):
 		return sign + rest[2:], 16, false
 	case len(rest) > 2 && (rest[:2] == "0b" || rest[:2] == "0B"):
